@@ -53,15 +53,14 @@ impl OutputFormat for Artworx {
 
         let mut result = vec![1]; // version
         result.extend(to_ega_data(&buf.palette));
-        if buf.get_font_dimensions().height != 16 {
+        // the font that is stored is the one the cells use: its size counts, not the size of whatever sits in slot 0
+        let Some(font) = buf.get_font(fonts.first().copied().unwrap_or(0)) else {
+            return Err(SavingError::NoFontFound.into());
+        };
+        if font.size.width != 8 || font.size.height != 16 || font.length != 256 {
             return Err(SavingError::Only8x16FontsSupported.into());
         }
-
-        if let Some(font) = buf.get_font(fonts.first().copied().unwrap_or(0)) {
-            result.extend(font.convert_to_u8_data());
-        } else {
-            return Err(SavingError::NoFontFound.into());
-        }
+        result.extend(font.convert_to_u8_data());
 
         for y in 0..buf.get_height() {
             for x in 0..buf.get_width() {
